@@ -475,3 +475,65 @@ def _(it, a, info):
         if i: out.extend(sep)
         out.extend(as_chars(s))
     return RString(out)
+
+# ------------------------------------------------------------------ more str / String methods
+@model('str::rfind')
+def _(it, a, info):
+    hay = as_chars(a[0]); pat = pat_chars(it, a[1])
+    for i in range(len(hay) - len(pat), -1, -1):
+        if match_at(it, hay, i, pat): return some(conc_len(it, hay[:i]))
+    return none()
+@model('str::split_once')
+def _(it, a, info):
+    hay = as_chars(a[0]); pat = pat_chars(it, a[1])
+    for i in range(len(hay) - len(pat) + 1):
+        if match_at(it, hay, i, pat): return some(Agg('tuple', [Str(hay[:i]), Str(hay[i + len(pat):])]))
+    return none()
+@model('str::lines')
+def _(it, a, info):
+    from models_iter import ListIter
+    hay = as_chars(a[0]); out = []; cur = []
+    for c in hay:
+        if truth(it, char_eq(c, 10)): out.append(Str(cur)); cur = []
+        else: cur.append(c)
+    if cur: out.append(Str(cur))
+    return ListIter(out)
+@model('str::matches')
+def _(it, a, info): raise Unsupported('str::matches')
+@model('str::eq_ignore_ascii_case')
+def _(it, a, info): raise Unsupported('eq_ignore_ascii_case')
+@model('String::remove')
+def _(it, a, info):
+    s = deref(a[0]); idx = byte_to_char_index(it, s.ch, a[1]); return s.ch.pop(idx)
+@model('String::retain')
+def _(it, a, info):
+    s = deref(a[0]); s.ch[:] = [c for c in s.ch if truth(it, call_closure_like(it, a[1], [c]))]; return UNIT
+@model('String::extend')
+def _(it, a, info):
+    from models_iter import to_iter, drain
+    s = deref(a[0])
+    for v in drain(it, to_iter(it, a[1])):
+        v = deref(v)
+        if isinstance(v, (Str, RString)): s.ch.extend(v.ch)
+        else: s.ch.append(v)
+    return UNIT
+@model('String::capacity', 'Vec::capacity')
+def _(it, a, info): return 0
+@model('String::reserve', 'Vec::reserve', 'String::shrink_to_fit', 'Vec::shrink_to_fit')
+def _(it, a, info): return UNIT
+@model('char::is_digit')
+def _(it, a, info):
+    c = a[0]
+    if a[1] != 10: raise Unsupported('is_digit radix')
+    if isinstance(c, int): return 48 <= c <= 57
+    return z3.And(z3.UGE(c, 48), z3.ULE(c, 57))
+@model('char::eq_ignore_ascii_case', 'char::to_ascii_lowercase', 'char::to_ascii_uppercase', 'char::to_lowercase', 'char::to_uppercase')
+def _(it, a, info): raise Unsupported('case mapping')
+@model('char::from_u32')
+def _(it, a, info):
+    x = a[0]
+    if is_sym(x): raise Unsupported('from_u32 symbolic')
+    return some(x) if (x <= 0x10FFFF and not 0xD800 <= x <= 0xDFFF) else none()
+@model('char::from_digit')
+def _(it, a, info):
+    return some(48 + a[0]) if a[0] < 10 and a[1] == 10 else none()
